@@ -82,6 +82,32 @@ pub fn run(tier: &str, seed: u64, dir: &str) {
             let op = h.done();
             sink.case(&op, &eval(&op), "floor-then-raise", true);
         }
+        // a LinkADRReq that commands the region's lowest data rate together with an explicit TX
+        // power (and one that keeps the power: 15), then silence: at the lowest rate ADRACKReq must
+        // stay clear whatever power was commanded; above it the back-off proceeds as usual
+        for (k, pw) in [0u8, 2, 5, 15].iter().enumerate() {
+            for lowest in [true, false] {
+                let drs = uplink_drs(region);
+                let d = if lowest { drs[0] } else { drs[1] };
+                let mut h = Hist::new("C12", region, 20, 0, 300 + k as u64, &[], None);
+                h.go_live();
+                h.abp();
+                h.ev(&format!("dr {}", d));
+                h.send(1, false, &[1]);
+                let req = if is_fixed(region) { link_adr_req(d, *pw, 0x00ff, 6, 1) } else { link_adr_req(d, *pw, if region.starts_with("AS923") { 0x0003 } else { 0x0007 }, 0, 1) };
+                h.rx_auth("rx1", 0, 1, false, &req, None, &[]);
+                h.snap();
+                for i in 0..(if thorough { 100 } else { 72 }) {
+                    if h.dead {
+                        break;
+                    }
+                    h.send(1, i % 5 == 4, &[7]).timeout();
+                }
+                h.snap();
+                let op = h.done();
+                sink.case(&op, &eval(&op), "power-then-silence", true);
+            }
+        }
         // the fixed plans' data-rate tables have a gap (US915: DR0-4, DR8-13; AU915: DR0-6, DR8-13):
         // an application override above the gap (`set_datarate` accepts it) still has a "next lower
         // region-defined rate" below the gap — ADRACKReq is due, and the back-off steps across the gap
